@@ -92,6 +92,7 @@ func runOCI(rng *rand.Rand, i int) (res worker.Result) {
 		steps = 0
 	}
 	ops := ""
+steps:
 	for s := 0; s < steps; s++ {
 		var aliveIdx []int
 		for k, a := range alive {
@@ -134,8 +135,11 @@ func runOCI(rng *rand.Rand, i int) (res worker.Result) {
 			sort.Strings(live)
 			t := live[rng.IntN(len(live))]
 			if err := st.Untag(ctx, t); err != nil {
-				res.Violate("harness:untag", fmt.Sprintf("Untag(%q): %v", t, err), nil)
-				return res
+				// the store no longer knows a tag the model holds: end the history here and let the
+				// Tags comparison below speak (a listed tag that cannot be untagged is not this property's subject)
+				res.Count("oci_untag_failed", 1)
+				history = append(history, ociStep{"untag-failed: " + err.Error(), t, -1})
+				break steps
 			}
 			delete(model, t)
 			history = append(history, ociStep{"untag", t, -1})
